@@ -16,7 +16,8 @@ package object
 //     in the middle makes the call fail.  Once the whole non-payload part is inside the
 //     prefix the call has to succeed (that is the "payload prefix" use of these functions);
 //  3. any input at all (mutated, random): no panic, no process-fatal error, reported bounds
-//     lie inside the input.
+//     lie inside the input; a located parent field (a member of header.split by the message
+//     definition) lies inside a split field that lies inside a header field of that input.
 //
 // Nothing is demanded about the *value* returned for a byte string that full decoding
 // accepts but no encoder produces (repeated, unordered or unknown fields): the fast paths
@@ -121,6 +122,38 @@ func vf41Find(b []byte, from, to int, num protowire.Number) vf41Ext {
 		off += tl + vl
 	}
 	return vf41Ext{}
+}
+
+// vf41AllLen returns the value ranges of every LEN field num of the message b[from:to], as
+// far as an independent walk gets (it stops at the first field it cannot consume).
+func vf41AllLen(b []byte, from, to int, num protowire.Number) [][2]int {
+	var out [][2]int
+	off := from
+	for off < to {
+		n, typ, tl := protowire.ConsumeTag(b[off:to])
+		if tl < 0 {
+			break
+		}
+		vl := protowire.ConsumeFieldValue(n, typ, b[off+tl:to])
+		if vl < 0 {
+			break
+		}
+		if n == num && typ == protowire.BytesType {
+			_, k := protowire.ConsumeVarint(b[off+tl : to])
+			out = append(out, [2]int{off + tl + k, off + tl + vl})
+		}
+		off += tl + vl
+	}
+	return out
+}
+
+func vf41Within(f iprotobuf.FieldBounds, rs [][2]int) bool {
+	for _, r := range rs {
+		if f.From >= r[0] && f.To <= r[1] {
+			return true
+		}
+	}
+	return false
 }
 
 type vf41Layout struct {
@@ -487,7 +520,7 @@ func (k *vf41Checker) check(x []byte, kind string, ref *vf41Ref, rng *rand.Rand)
 	})
 
 	// --- GetParentNonPayloadFieldBounds (object buffer)
-	parentCheck := func(fn string, buf []byte, base int, call func([]byte) (iprotobuf.FieldBounds, iprotobuf.FieldBounds, iprotobuf.FieldBounds, error), judge, must bool) {
+	parentCheck := func(fn string, buf []byte, base int, isHeader bool, call func([]byte) (iprotobuf.FieldBounds, iprotobuf.FieldBounds, iprotobuf.FieldBounds, error), judge, must bool) {
 		c.Guard(fn, kind, x, func() {
 			idf, sigf, hdrf, err := call(buf)
 			note(fn, err)
@@ -501,6 +534,37 @@ func (k *vf41Checker) check(x []byte, kind string, ref *vf41Ref, rng *rand.Rand)
 				k.vio(fn, kind, "bounds-outside-input", fmt.Sprintf("id=%+v sig=%+v hdr=%+v for %d bytes", idf, sigf, hdrf, len(buf)), x)
 				return
 			}
+			// The parent's ID, signature and header are members of header.split: whatever is
+			// reported as one of them has to lie inside a split field that lies inside a header
+			// field of this very input (as an independent walk of the input sees them).  A field
+			// whose declared length runs over the end of its enclosing message is malformed and
+			// must not be located.
+			if !idf.IsMissing() || !sigf.IsMissing() || !hdrf.IsMissing() {
+				hdrs := [][2]int{{0, len(buf)}}
+				if !isHeader {
+					hdrs = vf41AllLen(buf, 0, len(buf), vf41NumHdr)
+				}
+				var splits [][2]int
+				for _, h := range hdrs {
+					splits = append(splits, vf41AllLen(buf, h[0], h[1], vf41NumSplit)...)
+				}
+				for _, g := range []struct {
+					name string
+					f    iprotobuf.FieldBounds
+				}{{"parent-id", idf}, {"parent-signature", sigf}, {"parent-header", hdrf}} {
+					switch {
+					case g.f.IsMissing():
+					case len(hdrs) == 0 || (len(splits) == 0 && vf41Within(g.f, hdrs)):
+						c.Count("parent_fields_located_where_the_walker_sees_no_enclosing_message", 1) // walker stricter than the parser: not judged
+					case !vf41Within(g.f, hdrs):
+						k.vio(fn, kind, "located-field-outside-enclosing-message|"+g.name+"|outside-header", fmt.Sprintf("got %+v, header value(s) %v of %d bytes", g.f, hdrs, len(buf)), x)
+					case !vf41Within(g.f, splits):
+						k.vio(fn, kind, "located-field-outside-enclosing-message|"+g.name+"|outside-split-header", fmt.Sprintf("got %+v, split header value(s) %v", g.f, splits), x)
+					default:
+						c.Count("parent_fields_located_inside_enclosing_split_header", 1)
+					}
+				}
+			}
 			if !judge {
 				return
 			}
@@ -513,7 +577,7 @@ func (k *vf41Checker) check(x []byte, kind string, ref *vf41Ref, rng *rand.Rand)
 			}
 		})
 	}
-	parentCheck("GetParentNonPayloadFieldBounds", x, 0, GetParentNonPayloadFieldBounds, ref != nil, mustSucceed)
+	parentCheck("GetParentNonPayloadFieldBounds", x, 0, false, GetParentNonPayloadFieldBounds, ref != nil, mustSucceed)
 
 	// --- header-level functions on the (possibly cut) header of the reference encoding
 	if ref != nil && ref.lay.hdr.ok && ref.lay.hdr.valFrom < ref.cut {
@@ -547,7 +611,7 @@ func (k *vf41Checker) check(x []byte, kind string, ref *vf41Ref, rng *rand.Rand)
 			c.Count("agreement_checks_GetTypeHeader", 1)
 			c.Seen("object_types_agreed_on", fmt.Sprint(v))
 		})
-		parentCheck("GetParentNonPayloadFieldBoundsHeader", h, ref.lay.hdr.valFrom, GetParentNonPayloadFieldBoundsHeader, true, hdrComplete)
+		parentCheck("GetParentNonPayloadFieldBoundsHeader", h, ref.lay.hdr.valFrom, true, GetParentNonPayloadFieldBoundsHeader, true, hdrComplete)
 	}
 
 	// --- header-level functions on arbitrary bytes: x itself taken as a header, and whatever
@@ -577,7 +641,7 @@ func (k *vf41Checker) check(x []byte, kind string, ref *vf41Ref, rng *rand.Rand)
 				}
 			}
 		})
-		parentCheck("GetParentNonPayloadFieldBoundsHeader", h, 0, GetParentNonPayloadFieldBoundsHeader, false, false)
+		parentCheck("GetParentNonPayloadFieldBoundsHeader", h, 0, true, GetParentNonPayloadFieldBoundsHeader, false, false)
 		c.Count("header_level_calls_on_arbitrary_bytes", 3)
 	}
 
